@@ -1,7 +1,7 @@
 (* C08/Examples.v — non-vacuity: concrete values through the models. *)
-From Coq Require Import List NArith ZArith Bool.
+From Coq Require Import List NArith ZArith Bool Lia.
 From Common Require Import Bytes Outcome.
-From C08 Require Import Model ModelCD.
+From C08 Require Import Model ModelCD ModelLL.
 Import ListNotations.
 Local Open Scope N_scope.
 
@@ -50,3 +50,46 @@ Proof. vm_compute. split; reflexivity. Qed.
 Example classdef_fullrange_ok :
   exists b, M_cd_append ((0, 1) :: (65535, 2) :: nil) = Ok b /\ length b = 16%nat.
 Proof. eexists. vm_compute. split; reflexivity. Qed.
+
+(* ---- lookup lists ---- *)
+Definition blob (n : N) (x : N) : list N := repeat x (N.to_nat n).
+Definition lk (tp : N) (subs : list (list N)) : lookup :=
+  {| lk_type := tp; lk_flags := 0; lk_mfs := 0; lk_subs := subs |}.
+
+(* small list: header, two lookup tables, subtables in place *)
+Example ll_small :
+  M_ll_encode [lk 1 [[7; 7; 7]; [8; 8]]; {| lk_type := 2; lk_flags := 16; lk_mfs := 5; lk_subs := [[9]] |}] 7 =
+  Ok [0;2; 0;6; 0;21;  0;1; 0;0; 0;2; 0;10; 0;13; 7;7;7; 8;8;  0;2; 0;16; 0;1; 0;10; 0;5; 9].
+Proof. vm_compute. reflexivity. Qed.
+
+(* four lookups of 30000 bytes each: too large for 16-bit lookup offsets;
+   the biggest moves to the end, one lookup gets an extension record; the
+   hypotheses of the theorems hold and the list reads back *)
+Definition ll_big : list lookup :=
+  [lk 1 [blob 30000 1]; lk 2 [blob 30000 2]; lk 3 [blob 30000 3]; lk 4 [blob 30000 4]].
+Example ll_big_ok :
+  Forall (lookup_ok 7) ll_big /\
+  match M_ll_encode ll_big 7 with
+  | Ok b => N.of_nat (length b) = 120050 /\
+            match M_ll_read b 0 7 with
+            | Ok obs => map (fun o => (lo_type o, lo_subpos o)) obs =
+                        [(1, [18]); (2, [30026]); (3, [90050]); (4, [60050])]
+            | _ => False
+            end
+  | _ => False
+  end.
+Proof.
+  split.
+  - repeat constructor; cbn; try lia; discriminate.
+  - vm_compute. split; reflexivity.
+Qed.
+
+(* the witness of DESIGN 5.A-14: one lookup with three subtables of 40000
+   bytes: refused loudly by the repaired code (before: truncated offsets) *)
+Example ll_A14_refused :
+  M_ll_encode [lk 1 [blob 40000 1; blob 40000 2; blob 40000 3]] 7 = Panic.
+Proof. vm_compute. reflexivity. Qed.
+
+(* extension records needed but the table kind unknown: refused *)
+Example ll_ext_unknown_refused : M_ll_encode ll_big 0 = Panic.
+Proof. vm_compute. reflexivity. Qed.
